@@ -131,21 +131,28 @@ func (c *Ctx) PeerGate(prop string) {
 							}
 						}
 						nTrue++
-						idCall2, ok := an.Result(ret, 0).(*ssa.Call)
-						if !ok || idCall2.Call.StaticCallee() == nil || !prog.InModule(idCall2.Call.StaticCallee()) {
-							return false, "the wrapper " + Fn(W) + " reports a known sender with an id that is not the result of the peer lookup", nil
+						var idCall2 ssa.Value
+						if ic, ok := an.Result(ret, 0).(*ssa.Call); ok && ic.Call.StaticCallee() != nil && prog.InModule(ic.Call.StaticCallee()) {
+							idCall2 = ic
+							lookups[ic.Call.StaticCallee()] = true
+						} else if _, isK := an.Result(ret, 0).(*ssa.Const); !isK {
+							// the wrapper is the lookup itself: `for id, peer := range peers { if peer.Name == client && id != 0 { return id, nil } }`
+							// (what it may return as an id is judged below, like any lookup)
+							idCall2 = an.Result(ret, 0)
+							lookups[W] = true
+						} else {
+							return false, "the wrapper " + Fn(W) + " reports a known sender with a fixed id", nil
 						}
-						lookups[idCall2.Call.StaticCallee()] = true
 						target := ssa.Instruction(ret)
 						if x, path := an.Cut(an.CutQuery{From: an.Entry(W), Target: func(i ssa.Instruction) bool { return i == target },
 							AcceptEdge: func(b *ssa.BasicBlock, i int, a *an.Atom) bool {
 								if a == nil {
 									return false
 								}
-								if a.Op == "!=" && ((a.LV == ssa.Value(idCall2) && an.IsConstInt(a.RV, 0)) || (a.RV == ssa.Value(idCall2) && an.IsConstInt(a.LV, 0))) {
+								if a.Op == "!=" && ((a.LV == idCall2 && an.IsConstInt(a.RV, 0)) || (a.RV == idCall2 && an.IsConstInt(a.LV, 0))) {
 									return true
 								}
-								return a.Op == "<" && an.IsConstInt(a.LV, 0) && a.RV == ssa.Value(idCall2)
+								return a.Op == "<" && an.IsConstInt(a.LV, 0) && a.RV == idCall2
 							}}); x != nil {
 							return false, "the wrapper " + Fn(W) + " can report a known sender for id 0", an.PathString(c.Pos, path)
 						}
@@ -758,7 +765,7 @@ func init() {
 			c.ShareOwner("C16")
 			c.IdentifierPure("C16")
 			c.ReplyRequestScoped("C16") // the share leaves in a response object no other request can touch before it is sent
-			c.TLSConfig("C19") // "the authenticated name" is the name of a certificate the handshake verified against the configured authority
+			c.TLSConfig("C19")          // "the authenticated name" is the name of a certificate the handshake verified against the configured authority
 		},
 		Explanation: "Each of the five key-generation handlers calls the process service only below [sender id != 0], passing the looked-up id; the lookup yields a non-zero id only as the table key of the peer whose configured name equals the authenticated client name; that name enters the context only in the client-info interceptor, from the first verified peer certificate; nothing else calls the protocol methods; the contribution reply is the share indexed by that id, carried in a response object allocated by the call, and outgoing shares go to the peer of their own id. See DESIGN.md §5 C16.",
 		Trusted:     append([]string{"crypto/tls: PeerCertificates[0] is the verified leaf when RequireAndVerifyClientCert is set"}, commonTrusted...),
